@@ -4,7 +4,7 @@ import traceback
 
 from . import base
 
-MODULES = ['flags', 'chain', 'core', 'globc', 'matchc', 'walkc', 'more', 'fsmatch']
+MODULES = ['flags', 'chain', 'core', 'globc', 'matchc', 'walkc', 'more', 'fsmatch', 'small']
 
 
 def all_contracts():
